@@ -39,7 +39,8 @@ CONSTANTS
   KF_BadCommitWipes,    \* D19: an unparsable DH-Commit wipes the key exchange in progress
   KF_EarlyPeerKey,      \* D20: peer key / SSID are overwritten before the signature is verified
   KF_RejectCommits,     \* D21: a rejected binary message commits the version / binds the peer tag
-  KF_AKETimerAlways     \* D22: every AKE-type message restarts the query-ignore window
+  KF_AKETimerAlways,    \* D22: every AKE-type message restarts the query-ignore window
+  KF_SMPCorruptSilent   \* D24: an unparsable SMP message is dropped silently, the run stays half done
 
 NoText == 0
 
@@ -60,7 +61,7 @@ InitParty(me, pol, ver) ==
     ctrs |-> {}, macs |-> {}, pend |-> {},
     sess |-> <<0, 0>>, peer |-> "none", rev |-> FALSE,
     otag |-> 0, ttag |-> 0,
-    smp |-> "nil", smpsec |-> <<>>, smpq |-> FALSE,
+    smp |-> "nil", smpsec |-> <<>>, smpq |-> FALSE, smprun |-> 0,
     rsf |-> 0, rsq |-> <<>>,
     frag |-> <<0, 0>>,
     hb |-> TRUE, rstep |-> FALSE, renc |-> FALSE,
@@ -140,7 +141,9 @@ TheirKey(s, kid) ==
   ELSE 0
 
 \* genDataMsg: returns [ok, s, m]
-GenData(s, text, resent, flag, tlvs, retransmitting) ==
+NoSMP == [k |-> 0, sec |-> <<>>, ok |-> "ok", run |-> 0]
+
+GenDataS(s, text, resent, flag, tlvs, retransmitting, smp) ==
   IF s.ms # "enc" THEN [ok |-> FALSE, s |-> s, m |-> ErrorMsg]
   ELSE
     LET o == s.oid - 1
@@ -157,13 +160,15 @@ GenData(s, text, resent, flag, tlvs, retransmitting) ==
             m == [t |-> "D", v |-> s3.ver, st |-> Hdr(s3).st, rt |-> Hdr(s3).rt,
                   flag |-> flag, skid |-> o, rkid |-> t, next |-> s3.cur, ctr |-> n,
                   mac |-> <<mine, theirs>>, text |-> text, rs |-> resent, tlvs |-> tlvs,
-                  discl |-> s3.pend]
+                  discl |-> s3.pend, smp |-> smp]
             q == IF retransmitting THEN s3.rsq
                  ELSE IF KF_ResendHistory THEN Append(s3.rsq, text)
                  ELSE IF text = NoText THEN s3.rsq
                  ELSE <<text>>
         IN [ok |-> TRUE, m |-> m,
             s |-> [s3 EXCEPT !.pend = {}, !.rsf = 0, !.rsq = q]]
+
+GenData(s, text, resent, flag, tlvs, retransmitting) == GenDataS(s, text, resent, flag, tlvs, retransmitting, NoSMP)
 
 \* maybeRetransmit: returns [s, out, evs]
 Retransmit(s) ==
@@ -288,11 +293,51 @@ RecvAKE(s0, m, fresh, hi) ==
      ELSE Res(s9, r.out \o rt.out, NoText, FALSE, r.evs \o rt.evs)
 
 \* ------------------------------------------------------------------------
-\* SMP (abstract): state machine and the bound secret term
+\* SMP (abstract).  The secret a party binds is the term
+\*   <<initiator, responder, session pair, secret id>>
+\* (fingerprints of both long-term keys, the SSID, the user's secret); the
+\* protocol succeeds exactly when both parties' terms are equal.  An SMP
+\* message is the record [k: TLV type, sec: the sender's term, ok: whether its
+\* group elements and proofs are valid].
 \* ------------------------------------------------------------------------
 SMPTypes == {2, 3, 4, 5, 6, 7}
 
-WipeSMP(s) == [s EXCEPT !.smp = "nil", !.smpsec = <<>>, !.smpq = FALSE]
+WipeSMP(s) == [s EXCEPT !.smp = "nil", !.smpsec = <<>>, !.smpq = FALSE, !.smprun = 0]
+
+Term(init, resp, sess, secret) == <<init, resp, sess[1], sess[2], secret>>
+
+\* receiveSMP for one SMP TLV of type k with payload p.  Returns [s, evs, reply (smp record or NoSMP), err]
+SMPAbortRec == [k |-> 6, sec |-> <<>>, ok |-> "ok", run |-> 0]
+RecvSMPTLV(s0, k, p) ==
+  LET s == IF s0.smp = "nil" THEN [s0 EXCEPT !.smp = "expect1"] ELSE s0
+      unexpected == [s |-> [s EXCEPT !.smp = "expect1"], evs |-> <<"smp:Error">>, reply |-> SMPAbortRec, err |-> FALSE]
+      cheated == [s |-> [s EXCEPT !.smp = "expect1"], evs |-> <<"smp:Cheated">>, reply |-> SMPAbortRec, err |-> FALSE]
+  IN CASE p.ok = "corrupt" /\ k # 6 -> IF KF_SMPCorruptSilent THEN [s |-> s, evs |-> <<>>, reply |-> NoSMP, err |-> TRUE]
+                                        ELSE unexpected
+       [] k = 6 -> [s |-> [s EXCEPT !.smp = "expect1"], evs |-> <<"smp:Abort">>, reply |-> NoSMP, err |-> FALSE]
+       [] k \in {2, 7} ->
+            IF s.smp # "expect1" THEN unexpected
+            ELSE IF p.ok = "bad" THEN cheated
+            ELSE [s |-> [s EXCEPT !.smp = "waiting", !.smpq = (k = 7), !.smprun = p.run],
+                  evs |-> IF k = 7 THEN <<"smp:AskForAnswer">> ELSE <<"smp:AskForSecret">>, reply |-> NoSMP, err |-> FALSE]
+       [] k = 3 ->
+            IF s.smp # "expect2" THEN unexpected
+            ELSE IF p.ok = "bad" \/ p.run # s.smprun THEN cheated
+            ELSE [s |-> [s EXCEPT !.smp = "expect4"], evs |-> <<"smp:InProgress">>,
+                  reply |-> [k |-> 4, sec |-> s.smpsec, ok |-> "ok", run |-> s.smprun], err |-> FALSE]
+       [] k = 4 ->
+            IF s.smp # "expect3" THEN unexpected
+            ELSE IF p.ok = "bad" \/ p.run # s.smprun THEN cheated
+            ELSE IF p.sec = s.smpsec
+                 THEN [s |-> [s EXCEPT !.smp = "expect1", !.smpsec = <<>>, !.smpq = FALSE, !.smprun = 0], evs |-> <<"smp:Success">>,
+                       reply |-> [k |-> 5, sec |-> s.smpsec, ok |-> "ok", run |-> s.smprun], err |-> FALSE]
+                 ELSE [s |-> [s EXCEPT !.smp = "expect1"], evs |-> <<"smp:Failure">>, reply |-> SMPAbortRec, err |-> FALSE]
+       [] k = 5 ->
+            IF s.smp # "expect4" THEN unexpected
+            ELSE IF p.ok = "bad" \/ p.run # s.smprun THEN cheated
+            ELSE IF p.sec = s.smpsec
+                 THEN [s |-> [s EXCEPT !.smp = "expect1", !.smpsec = <<>>, !.smpq = FALSE, !.smprun = 0], evs |-> <<"smp:Success">>, reply |-> NoSMP, err |-> FALSE]
+                 ELSE [s |-> [s EXCEPT !.smp = "expect1"], evs |-> <<"smp:Failure">>, reply |-> SMPAbortRec, err |-> FALSE]
 
 \* ------------------------------------------------------------------------
 \* Data messages
@@ -306,13 +351,12 @@ RejectData(s, m, kind) ==
   IF m.flag % 2 = 1 THEN Res(s, <<>>, NoText, FALSE, <<>>)
   ELSE Res(s, <<ErrorMsg>>, NoText, TRUE, <<kind>>)
 
-\* TLV processing (disconnect, extra key; SMP is handled in OTRSMP.tla hooks)
+\* TLV processing: disconnect, extra key, SMP.  acc = [s, evs, replies (seq of smp records)]
 RECURSIVE ProcTLVs(_, _, _, _)
-ProcTLVs(s, tlvs, i, acc) ==
-  \* acc = [s, evs, reply (seq of tlv types), err]
-  IF i > Len(tlvs) THEN acc
+ProcTLVs(s, m, i, acc) ==
+  IF i > Len(m.tlvs) \/ acc.err THEN acc
   ELSE
-    LET t == tlvs[i]
+    LET t == m.tlvs[i]
         a == CASE t = 1 ->
                     [acc EXCEPT !.s = [WipeSMP(acc.s) EXCEPT !.ms = "fin", !.auth = "nil", !.renc = FALSE, !.rstep = FALSE,
                                          !.ax = 0, !.agy = 0, !.aenc = 0, !.ahash = 0, !.akid = 0, !.atid = 0,
@@ -321,8 +365,12 @@ ProcTLVs(s, tlvs, i, acc) ==
                                          !.rsq = IF KF_ResendHistory THEN acc.s.rsq ELSE <<>>],
                                  !.evs = IF acc.s.ms = "enc" THEN Append(@, "sec:GoneInsecure") ELSE @]
                [] t = 8 -> [acc EXCEPT !.evs = Append(@, "key:extra")]
+               [] t \in SMPTypes ->
+                    LET r == RecvSMPTLV(acc.s, t, IF t = 6 /\ m.smp.k # 6 THEN SMPAbortRec ELSE m.smp)
+                    IN [acc EXCEPT !.s = r.s, !.evs = @ \o r.evs, !.err = r.err,
+                                   !.replies = IF r.reply.k # 0 THEN Append(@, r.reply) ELSE @]
                [] OTHER -> acc
-    IN ProcTLVs(a.s, tlvs, i + 1, a)
+    IN ProcTLVs(a.s, m, i + 1, a)
 
 RecvData(s, m, fresh) ==
   IF s.ms # "enc" THEN
@@ -359,16 +407,27 @@ RecvData(s, m, fresh) ==
                       ELSE s2
                 plain == m.text
                 ev0 == IF plain = NoText THEN <<"msg:LogHeartbeatReceived">> ELSE <<>>
-                tl == ProcTLVs(s3, m.tlvs, 1, [s |-> s3, evs |-> <<>>])
-                s4 == tl.s
+                tl == ProcTLVs(s3, m, 1, [s |-> s3, evs |-> <<>>, replies |-> <<>>, err |-> FALSE])
+                \* reply TLVs go out in one data message (the last SMP record is its payload)
+                rep == IF tl.replies = <<>> THEN [ok |-> TRUE, s |-> tl.s, m |-> ErrorMsg]
+                       ELSE GenDataS(tl.s, NoText, FALSE, 1, [i \in DOMAIN tl.replies |-> tl.replies[i].k], FALSE,
+                                     tl.replies[Len(tl.replies)])
+                s4 == rep.s
+                repout == IF tl.replies # <<>> /\ rep.ok THEN <<rep.m>> ELSE <<>>
                 \* heartbeat
                 hbdue == plain # NoText /\ s4.hb
                 hbg == IF hbdue THEN GenData(s4, NoText, FALSE, 1, <<>>, FALSE) ELSE [ok |-> TRUE, s |-> s4, m |-> ErrorMsg]
-            IN IF hbdue /\ ~hbg.ok
+            IN IF tl.err
+               THEN IF m.flag % 2 = 1 THEN Res(tl.s, <<>>, NoText, FALSE, ev0 \o tl.evs)
+                    ELSE Res(tl.s, <<ErrorMsg>>, NoText, TRUE, ev0 \o tl.evs \o <<"msg:ReceivedMessageMalformed">>)
+               ELSE IF tl.replies # <<>> /\ ~rep.ok
+               THEN IF m.flag % 2 = 1 THEN Res(s4, <<>>, NoText, FALSE, ev0 \o tl.evs)
+                    ELSE Res(s4, <<ErrorMsg>>, NoText, TRUE, ev0 \o tl.evs \o <<"msg:ReceivedMessageUnreadable">>)
+               ELSE IF hbdue /\ ~hbg.ok
                THEN Res(InjectErr(s4), <<ErrorMsg>>, plain, TRUE, ev0 \o tl.evs \o <<"msg:ReceivedMessageMalformed">>)
                ELSE IF hbdue
-               THEN Res([hbg.s EXCEPT !.hb = FALSE], <<hbg.m>>, plain, FALSE, ev0 \o tl.evs \o <<"msg:LogHeartbeatSent">>)
-               ELSE Res(s4, <<>>, plain, FALSE, ev0 \o tl.evs)
+               THEN Res([hbg.s EXCEPT !.hb = FALSE], repout \o <<hbg.m>>, plain, FALSE, ev0 \o tl.evs \o <<"msg:LogHeartbeatSent">>)
+               ELSE Res(s4, repout, plain, FALSE, ev0 \o tl.evs)
 
 \* ------------------------------------------------------------------------
 \* Receive
@@ -531,6 +590,37 @@ End(s) ==
 Query(s) == Res(s, <<QueryMsg(s)>>, NoText, FALSE, <<>>)
 
 Tick(s) == Res([s EXCEPT !.hb = TRUE, !.rstep = FALSE, !.renc = FALSE], <<>>, NoText, FALSE, <<>>)
+
+\* StartAuthenticate(question?, secret)
+SMPStart(s0, secret, q, run) ==
+  LET s == IF s0.smp = "nil" THEN [s0 EXCEPT !.smp = "expect1"] ELSE s0
+  IN IF s.ms # "enc" THEN Res(s, <<>>, NoText, TRUE, <<>>)
+     ELSE
+      LET term == Term(s.me, s.peer, s.sess, secret)
+          k == IF q THEN 7 ELSE 2
+          tlvs == IF s.smp = "expect1" THEN <<k>> ELSE <<6, k>>
+          s1 == [s EXCEPT !.smp = "expect2", !.smpsec = term, !.smprun = run]
+          g == GenDataS(s1, NoText, FALSE, 1, tlvs, FALSE, [k |-> k, sec |-> <<>>, ok |-> "ok", run |-> run])
+      IN IF g.ok THEN Res([g.s EXCEPT !.hb = FALSE], <<g.m>>, NoText, FALSE, <<>>)
+         ELSE Res(s1, <<>>, NoText, TRUE, <<>>)
+
+\* ProvideAuthenticationSecret(secret)
+SMPAnswer(s, secret) ==
+  IF s.smp # "waiting" THEN Res([s EXCEPT !.smp = "expect1"], <<>>, NoText, TRUE, <<>>)
+  ELSE IF s.ms # "enc" THEN Res([s EXCEPT !.smp = "expect1"], <<>>, NoText, TRUE, <<>>)
+  ELSE
+    LET term == Term(s.peer, s.me, s.sess, secret)
+        s1 == [s EXCEPT !.smp = "expect3", !.smpsec = term]
+        g == GenDataS(s1, NoText, FALSE, 1, <<3>>, FALSE, [k |-> 3, sec |-> term, ok |-> "ok", run |-> s.smprun])
+    IN IF g.ok THEN Res([g.s EXCEPT !.hb = FALSE], <<g.m>>, NoText, FALSE, <<>>)
+       ELSE Res(s1, <<>>, NoText, TRUE, <<>>)
+
+\* AbortAuthentication()
+SMPAbort(s) ==
+  LET s1 == [s EXCEPT !.smp = "expect1"]
+      g == GenDataS(s1, NoText, FALSE, 1, <<6>>, FALSE, SMPAbortRec)
+  IN IF g.ok THEN Res([g.s EXCEPT !.hb = FALSE], <<g.m>>, NoText, FALSE, <<>>)
+     ELSE Res(s1, <<>>, NoText, TRUE, <<>>)
 
 ExtraKey(s) ==
   IF s.ms # "enc" \/ s.tid = 0 THEN Res(s, <<>>, NoText, TRUE, <<>>)
